@@ -416,3 +416,56 @@ def canary():
     o = H.identity("canary.rot.similarity_instead_of_congruence", np.asarray(out["h1"], dtype=object)[0], C.dot(hh["V"].s[0]).dot(C.T))
     o["kind"] = "canary"
     return [o]
+
+
+def rot_congruence_allsizes():
+    """C15.rot.congruence.allsizes (PROOF, all norb and all numbers of Cholesky vectors): tensor normal form of the traced rotate_orbs with
+    SYMBOLIC sizes: h1[s]'[q,p] = sum_ij C[i,q] h1[s][i,j] C[j,p] and chol'[g,(q,p)] = sum_ij C[i,q] L[g,(i,j)] C[j,p]."""
+    t0 = time.time()
+    H.setup_repo()
+    import jax
+    import jax.numpy as jnp
+    from ad_afqmc import hamiltonian
+    from vc.jxvc import tensorform as T
+    fns = ["hamiltonian.hamiltonian.rotate_orbs"]
+    forms = []
+    for n, g in ((3, 5), (5, 7)):          # distinct primes per size symbol; the second pair checks that tracing is uniform in the sizes
+        ham = hamiltonian.hamiltonian(n)
+        hd = dict(h1=jnp.zeros((2, n, n)), chol=jnp.zeros((g, n * n)))
+        closed = jax.make_jaxpr(lambda h, c: ham.rotate_orbs(h, c))(hd, jnp.eye(n))
+        # inputs in pytree order: chol, h1, mo_coeff
+        L = T.atom("L", ["g", "n", "n"], composite=[[0], [1, 2]])
+        h1 = T.Stack([T.atom("h1_up", ["n", "n"]), T.atom("h1_dn", ["n", "n"])])
+        C = T.atom("C", ["n", "n"])
+        it = T.Interp(dict(n=n, g=g))
+        try:
+            out = it.run(closed.jaxpr, closed.consts, [L, h1, C])
+        except Unsupported as e:
+            return [ob("C15.rot.congruence.allsizes", UNDECIDED, kind="proof", backend="tensor-normal-form", detail=f"Unsupported: {e}", functions=fns, wall=time.time() - t0)]
+        tree = jax.tree_util.tree_structure(jax.eval_shape(lambda h, c: ham.rotate_orbs(h, c), hd, jnp.eye(n)))
+        res = jax.tree_util.tree_unflatten(tree, out)
+        want_chol = T.reshape(T.ein("iq,gij,jp->gqp", C, L, C), [g, n * n], dict(n=n, g=g))
+        want_h1 = T.Stack([T.ein("iq,ij,jp->qp", C, h1[s], C) for s in range(2)])
+        forms.append((res, want_chol, want_h1, dict(it.seen)))
+    out = []
+    (r1, wc1, wh1, seen1), (r2, wc2, wh2, seen2) = forms
+    uniform = T.describe(r1["chol"]) == T.describe(r2["chol"]) and T.describe(r1["h1"]) == T.describe(r2["h1"]) and seen1 == seen2
+    out.append(ob("C15.rot.congruence.allsizes.uniform", DISCHARGED if uniform else UNDECIDED, kind="proof", backend="tensor-normal-form", functions=fns, wall=time.time() - t0,
+                  detail=f"the traced program and its normal form are identical at (norb, nchol) = (3, 5) and (5, 7); primitives {seen1}"))
+    for nm, got, want in (("chol", r1["chol"], wc1), ("h1", r1["h1"], wh1)):
+        ok = T.equal(got, want)
+        o = ob(f"C15.rot.congruence.allsizes.{nm}", DISCHARGED if ok else REFUTED, kind="proof", backend="tensor-normal-form", functions=fns, wall=time.time() - t0,
+               detail=(f"normal form {T.describe(got)} == C^T X C for all sizes" if ok else f"normal form {T.describe(got)} differs from {T.describe(want)}"),
+               witness=None if ok else dict(got=str(T.describe(got))[:600], want=str(T.describe(want))[:600]), witness_class="" if ok else "normal-form")
+        if not ok:
+            rng = np.random.default_rng(0)
+            n, g = 3, 2
+            ham = hamiltonian.hamiltonian(n)
+            h = rng.normal(size=(2, n, n)); Lx = rng.normal(size=(g, n, n)); Cx = rng.normal(size=(n, n))
+            nat = ham.rotate_orbs(dict(h1=jnp.asarray(h), chol=jnp.asarray(Lx.reshape(g, -1))), jnp.asarray(Cx))
+            dev = float(np.abs(np.asarray(nat["chol"]).reshape(g, n, n) - np.array([Cx.T @ Lx[k] @ Cx for k in range(g)])).max()) if nm == "chol" else \
+                float(max(np.abs(np.asarray(nat["h1"])[s] - Cx.T @ h[s] @ Cx).max() for s in range(2)))
+            o["replayed"] = bool(dev > 1e-10)
+            o["witness"]["native"] = dict(norb=n, nchol=g, max_abs_deviation=dev)
+        out.append(o)
+    return out
